@@ -124,6 +124,19 @@ class VBlocks(V):
         self.ref = ref        # heap object with fields 'flat' (VList) and 'count' (VInt)
 
 
+class VRag(V):
+    """A Python list of 1-D arrays (one per probe / file): count, per-row lengths and per-row content (nested z3 arrays)."""
+    def __init__(self, ref):
+        self.ref = ref
+
+
+class RagCell:
+    __slots__ = ('etype', 'count', 'lens', 'data')
+
+    def __init__(self, etype, count, lens, data):
+        self.etype, self.count, self.lens, self.data = etype, count, lens, data
+
+
 class VRange(V):
     def __init__(self, start, stop, step):
         self.start, self.stop, self.step = start, stop, step
@@ -213,6 +226,8 @@ def parse_type(s):
             return ('arr', args()[0])
         if name == 'blocks':
             return ('blocks', args()[0])
+        if name == 'rag':
+            return ('rag', args()[0])
         if name == 'tuple':
             return ('tuple', args())
         if name == 'opt':
@@ -422,11 +437,13 @@ class Heap:
     def __init__(self):
         self.lists = {}
         self.objs = {}
+        self.rags = {}
         self.next_ref = [1]
 
     def copy(self):
         h = Heap.__new__(Heap)
         h.lists = dict(self.lists)
+        h.rags = dict(getattr(self, 'rags', {}))
         h.objs = {k: dict(v) for k, v in self.objs.items()}
         h.next_ref = self.next_ref  # shared counter: refs stay globally unique
         return h
@@ -445,6 +462,15 @@ class Heap:
         n = z3.Int(fresh_name(base + '.len'))
         leaves = [z3.Array(fresh_name('%s.a%d' % (base, i)), z3.IntSort(), s) for i, s in enumerate(leaf_sorts(etype))]
         return self.alloc_list(etype, n, leaves), n
+
+    def fresh_rag(self, etype, base):
+        r = self.new_ref()
+        srt = {'int': z3.IntSort(), 'real': z3.RealSort(), 'bool': z3.BoolSort(), 'elem': Elem}[etype]
+        k = z3.Int(fresh_name(base + '.count'))
+        lens = z3.Array(fresh_name(base + '.lens'), z3.IntSort(), z3.IntSort())
+        data = z3.Array(fresh_name(base + '.rows'), z3.IntSort(), z3.ArraySort(z3.IntSort(), srt))
+        self.rags[r] = RagCell(etype, k, lens, data)
+        return VRag(r), k, lens
 
     def alloc_obj(self, cls, fields):
         r = self.new_ref()
